@@ -169,7 +169,7 @@ struct Engine {
             p.setup = [rn](VState& s) { s.r[rn] = 0x6480, s.m[rn] = 0, s.br[rn] = 0; };
         } else if (n == "movs" && ArgsAre(d, {"Register", "Ab"})) {
             Reg r = kRegister[d.args[0]];
-            if (r == R_pc || r == R_st0 || r == R_st1 || r == R_st2 || r == R_p || r == R_a0 || r == R_a1)
+            if (r == R_pc || r == R_st0 || r == R_st1 || r == R_st2 || r == R_a0 || r == R_a1)
                 return p;
             p.src_kind = 2, p.reg = r, p.dst = AccIndex(kAb[d.args[1]]), p.form = std::string("movs ") + kRegNames[r], p.valid = true;
         } else if (n == "movs_r6_to" && ArgsAre(d, {"Ax"})) {
@@ -180,7 +180,16 @@ struct Engine {
         }
         return p;
     }
-    void ShiftCase(u16 opcode, const DecodeInfo& d, const ShiftPlan& p, u64 A, u16 B16, u16 sv, int smode, int sata, int fl) {
+    // the product named as a 16-bit operand is the high word of the product as the selected shifter presents it
+    static u16 PHigh(const VState& s) {
+        return (u16)(ProductRead(s.p[0], s.pe[0], s.ps[0]) >> 16);
+    }
+    void ShiftCase(u16 opcode, const DecodeInfo& d, const ShiftPlan& p, u64 A, u16 B16, u16 sv, int smode, int sata, int fl, int psel = -1) {
+        if (p.src_kind == 2 && p.reg == R_p && psel < 0) {
+            for (int k = 0; k < 8; ++k)
+                ShiftCase(opcode, d, p, A, B16, sv, smode, sata, fl, k);
+            return;
+        }
         VState s = base;
         s.s = (u16)smode, s.sata = (u16)sata;
         s.fz = s.fm = s.fe = s.fn = s.fc0 = s.fv = s.fvl = s.flm = (u16)fl;
@@ -196,6 +205,10 @@ struct Engine {
         } else if (p.src_kind == 1) {
             impl.api->poke_data(impl.m, p.mem_addr, B16);
             V = (short)B16;
+        } else if (p.reg == R_p) {
+            s.ps[0] = (u16)(psel & 3), s.pe[0] = (u16)(psel >> 2);
+            s.p[0] = ((u32)B16 << 16) | (u16)(B16 * 0x6487u + 0x4321u);
+            V = (short)PHigh(s);
         } else {
             c03::WriteReg16(s, p.reg, B16);
             V = (short)c03::ReadReg16(s, p.reg);
@@ -281,7 +294,7 @@ struct Engine {
                              Fmt("c04 norm %u %llu %d %d", opcode, (unsigned long long)A, fn, fc_pre));
     }
     // ---------- exponent ----------
-    void ExpCase(u16 opcode, const DecodeInfo& d, u64 A, u16 B16) {
+    void ExpCase(u16 opcode, const DecodeInfo& d, u64 A, u16 B16, int psel = -1) {
         std::string n = d.name;
         VState s = base;
         s.sv = 0x5A5A;
@@ -301,9 +314,18 @@ struct Engine {
                 dst = d.args[2];
         } else if (n == "exp" && (ArgsAre(d, {"Register"}) || ArgsAre(d, {"Register", "Ax"}))) {
             Reg r = kRegister[d.args[0]];
-            if (r == R_pc || r == R_st0 || r == R_st1 || r == R_st2 || r == R_p)
+            if (r == R_pc || r == R_st0 || r == R_st1 || r == R_st2)
                 return;
-            if (r == R_a0 || r == R_a1) {
+            if (r == R_p) {
+                if (psel < 0) {
+                    for (int k = 0; k < 8; ++k)
+                        ExpCase(opcode, d, A, B16, k);
+                    return;
+                }
+                s.ps[0] = (u16)(psel & 3), s.pe[0] = (u16)(psel >> 2);
+                s.p[0] = ((u32)B16 << 16) | (u16)(A >> 3);
+                V = (long long)(int)((u32)PHigh(s) << 16);
+            } else if (r == R_a0 || r == R_a1) {
                 AccRef(s, AccIndex(r)) = A;
                 V = S40(A);
             } else {
@@ -372,7 +394,7 @@ struct Engine {
         static const char* mn[] = {"mpy", "mpysu", "mac", "macus", "maa", "macuu", "macsu", "maasu"};
         if (n == "mul_y0" && ArgsAre(d, {"Mul3", "Register", "Ax"})) {
             Reg r = kRegister[d.args[1]];
-            if (r == R_pc || r == R_st0 || r == R_st1 || r == R_st2 || r == R_p || r == R_a0 || r == R_a1 || r == R_y0)
+            if (r == R_pc || r == R_st0 || r == R_st1 || r == R_st2 || r == R_a0 || r == R_a1 || r == R_y0)
                 return p;
             MulOpToPlan((MulK)d.args[0], p);
             p.x_kind = 2, p.xreg = r, p.acc = d.args[2], p.form = std::string(mn[d.args[0]]) + " y0," + kRegNames[r];
@@ -439,7 +461,7 @@ struct Engine {
         else
             s.y[0] = y;
         // effective factors as named by the form
-        u16 xe = p.x_kind == 4 ? (u16)p.xconst : p.x_kind == 2 ? c03::ReadReg16(s, p.xreg) : x;
+        u16 xe = p.x_kind == 4 ? (u16)p.xconst : p.x_kind == 2 ? (p.xreg == R_p ? PHigh(s) : c03::ReadReg16(s, p.xreg)) : x;
         long long Aeff = S40(AccVal(s, p.acc));
         VState out;
         std::string bad;
